@@ -530,10 +530,11 @@ func runC09(c *CaseCtx) (res CaseResult) {
 			a1 := in1.AllArgs(k, rand.New(&splitmix{s: uint64(sh)}))
 			a2 := in2.AllArgs(k, rand.New(&splitmix{s: uint64(sh)}))
 			n1 := in1.W.NumEvents()
+			cfNow := factsNow(in1)
 			o1 := DoCall(in1.W, in1.Target.Func, a1)
 			o2 := DoCall(in2.W, in2.Target.Func, a2)
 			res.Evals += 2
-			checkCall(in1, &o1, &cf, k, n1, &res)
+			checkCall(in1, &o1, &cfNow, k, n1, &res)
 			classes1 = append(classes1, "call:"+o1.Class)
 			classes2 = append(classes2, "call:"+o2.Class)
 			if succeededRedefine {
@@ -655,6 +656,43 @@ func runC09Concurrent(c *CaseCtx, r *rand.Rand) (res CaseResult) {
 	seeds := make([]int64, G)
 	for g := range seeds {
 		seeds[g] = r.Int63()
+	}
+	casePointHook = perturb(r.Uint64(), 1)
+	defer func() { casePointHook = nil }()
+	// phase 1: every goroutine plans at the same time on the shared objects;
+	// nothing at all may execute
+	{
+		var wg1 sync.WaitGroup
+		go1 := make(chan struct{})
+		for g := 0; g < G; g++ {
+			wg1.Add(1)
+			go func(g int) {
+				defer wg1.Done()
+				<-go1
+				for k := 0; k < 3; k++ {
+					call := 500000 + 100*g + k
+					args := make([]am.Arg, 0, len(s.Inputs)+len(in.ConvArgs))
+					for i, l := range s.Inputs {
+						args = append(args, InputArg(l, in.W.FreshInput(call, i, l)))
+					}
+					args = append(args, in.ConvArgs...)
+					o := DoRedefine(nil, in.Target.Func, args)
+					mu.Lock()
+					res.Evals++
+					res.obs("concurrent_redefines", 1)
+					if o.Class == ClsPanic {
+						res.violate("C06", "panic/redefine-"+crashKey(o.Panic), "concurrent Redefine panicked: "+o.Panic, map[string]interface{}{"scenario": s.String()})
+					}
+					mu.Unlock()
+				}
+			}(g)
+		}
+		close(go1)
+		wg1.Wait()
+		if n := in.W.NumEvents(); n > 0 {
+			res.violate("C09", "executed-during-redefine", fmt.Sprintf("%d generated bodies executed while only Redefine calls were running (concurrently): %s", n, eventsStr(in.W.EventsFrom(0))), map[string]interface{}{"scenario": s.String(), "goroutines": G})
+		}
+		res.obs("all_redefine_phases", 1)
 	}
 	// sequential reference class
 	ref := DoCall(in.W, in.Target.Func, in.AllArgs(999999, r))
